@@ -89,9 +89,14 @@ Proof.
     + simpl. constructor; [|assumption]. apply CP_tok; assumption.
 Qed.
 
-(* ---------- dropping a final empty piece ---------- *)
-Definition drop_last_empty (ls : list str) : list str :=
-  match rev ls with [] :: r => rev r | _ => ls end.
+(* ---------- str::lines on the list of pieces ---------- *)
+(* pieces terminated by a line break lose one trailing CR; the unterminated last piece is kept
+   as it is and dropped when empty *)
+Definition lines_of (ls : list str) : list str :=
+  match rev ls with
+  | [] => []
+  | last :: r => map strip_cr (rev r) ++ (match last with [] => [] | _ => [last] end)
+  end.
 
 Lemma Forall2_rev {A B} (R : A -> B -> Prop) : forall l1 l2,
     Forall2 R l1 l2 -> Forall2 R (rev l1) (rev l2).
@@ -101,18 +106,21 @@ Proof.
   - apply Forall2_app; [assumption|]. constructor; [assumption|constructor].
 Qed.
 
-Lemma drop_last_empty_CP : forall lc lp, Forall2 CP lc lp ->
-    Forall2 CP (drop_last_empty lc) (drop_last_empty lp).
+Lemma Forall2_map_both {A B} (R : B -> B -> Prop) (f : A -> B) (R0 : A -> A -> Prop) :
+  (forall x y, R0 x y -> R (f x) (f y)) ->
+  forall l1 l2, Forall2 R0 l1 l2 -> Forall2 R (map f l1) (map f l2).
+Proof. intros H l1 l2 F. induction F; simpl; constructor; auto. Qed.
+
+(* a property of all pieces that survives strip_cr holds of all lines *)
+Lemma lines_of_Forall : forall (P : str -> Prop) ls,
+    (forall l, P l -> P (strip_cr l)) -> Forall P ls -> Forall P (lines_of ls).
 Proof.
-  intros lc lp H. unfold drop_last_empty.
-  pose proof (Forall2_rev CP _ _ H) as Hr.
-  destruct Hr as [|xc xp rc rp Hx Hr]; [exact H|].
-  pose proof (CP_nil_iff _ _ Hx) as [N1 N2].
-  destruct xc as [|a xc]; destruct xp as [|b xp].
-  - apply Forall2_rev. exact Hr.
-  - specialize (N1 eq_refl). discriminate.
-  - specialize (N2 eq_refl). discriminate.
-  - exact H.
+  intros P ls HP H. unfold lines_of. apply Forall_rev in H.
+  destruct (rev ls) as [|last r]; [constructor|].
+  inversion H as [|x0 l0 Hlast Hr]; subst. apply Forall_app. split.
+  - apply Forall_forall. intros l Hl. apply in_map_iff in Hl. destruct Hl as [l0 [E Hl0]].
+    subst l. apply HP. apply Forall_rev in Hr. rewrite Forall_forall in Hr. apply Hr. exact Hl0.
+  - destruct last; [constructor|]. constructor; [exact Hlast|constructor].
 Qed.
 
 (* ---------- strip_cr ---------- *)
@@ -206,24 +214,33 @@ Proof.
     + rewrite !scr_app_nonnil by discriminate. apply CP_tok; assumption.
 Qed.
 
-Lemma lines_eq : forall s, lines s = map strip_cr (drop_last_empty (splitnl s)).
+Lemma lines_eq : forall s, lines s = lines_of (splitnl s).
 Proof.
-  intros s. unfold lines. cbv zeta. rewrite split_nl_eq. simpl rev. simpl app.
+  intros s. unfold lines, lines_of. rewrite split_nl_eq. simpl rev at 2. simpl app.
   pose proof (splitnl_nonnil s) as N. destruct (splitnl s) as [|l ls]; [contradiction|].
   reflexivity.
 Qed.
 
-Lemma Forall2_map_both {A B} (R : B -> B -> Prop) (f : A -> B) (R0 : A -> A -> Prop) :
-  (forall x y, R0 x y -> R (f x) (f y)) ->
-  forall l1 l2, Forall2 R0 l1 l2 -> Forall2 R (map f l1) (map f l2).
-Proof. intros H l1 l2 F. induction F; simpl; constructor; auto. Qed.
+Lemma lines_of_CP : forall lc lp, Forall2 CP lc lp -> Forall2 CP (lines_of lc) (lines_of lp).
+Proof.
+  intros lc lp H. unfold lines_of.
+  pose proof (Forall2_rev CP _ _ H) as Hr.
+  destruct Hr as [|xc xp rc rp Hx Hr]; [constructor|].
+  apply Forall2_app.
+  - apply (Forall2_map_both CP strip_cr CP).
+    + intros x y Hxy. rewrite !strip_cr_scr. apply scr_CP. exact Hxy.
+    + apply Forall2_rev. exact Hr.
+  - pose proof (CP_nil_iff _ _ Hx) as [N1 N2].
+    destruct xc as [|a xc]; destruct xp as [|b xp].
+    + constructor.
+    + specialize (N1 eq_refl). discriminate.
+    + specialize (N2 eq_refl). discriminate.
+    + constructor; [exact Hx|constructor].
+Qed.
 
 Theorem lines_CP : forall cs ps, CP cs ps -> Forall2 CP (lines cs) (lines ps).
 Proof.
-  intros cs ps H. rewrite !lines_eq.
-  apply (Forall2_map_both CP strip_cr CP).
-  - intros x y Hxy. rewrite !strip_cr_scr. apply scr_CP. exact Hxy.
-  - apply drop_last_empty_CP. apply splitnl_CP. exact H.
+  intros cs ps H. rewrite !lines_eq. apply lines_of_CP. apply splitnl_CP. exact H.
 Qed.
 
 (* ---------- indentation ---------- *)
